@@ -138,16 +138,20 @@ def run(ctx, prog):
                     n_w += 1
                     ov = ov or flow.Origin(b, stop_at_vars=True)
                     r = flow.render(ov.of_rvalue(rv, 0, frozenset()))
+                    # classified on the fully expanded value as well: a named temporary (`let cap = self.capacity as f64`) or a guard kept in a named bool
+                    # must not change the verdict
+                    ofull = flow.Origin(b)
+                    rfull = flow.render(ofull.of_rvalue(rv, 0, frozenset()))
                     kind = None
-                    if re.match(r'^f64::min\(.*, arg:self→TokenBucket\.capacity\)$', r):
+                    if re.match(r'^f64::min\(.*, arg:self→TokenBucket\.capacity\)$', r) or re.match(r'^f64::min\(.*, arg:self→TokenBucket\.capacity\)$', rfull):
                         kind = 'min(_, capacity)'
                     elif re.match(r'^\(arg:self→TokenBucket\.tokens Sub 1(\.0)?(f64)?\)$', r) or re.match(r'^\(arg:self→TokenBucket\.tokens Sub 1f64\)$', r):
                         # guarded by tokens >= 1.0
                         g = []
                         for j, blk2 in enumerate(b.blocks):
                             if blk2['t']['k'] == 'switch':
-                                for tg, p in flow.switch_edge_predicates(b, j, ov):
-                                    if re.match(r'^cmp\[1(\.0)?f64 <= arg:self→TokenBucket\.tokens\]$|^cmp\[arg:self→TokenBucket\.tokens >= 1(\.0)?f64\]$', p):
+                                for tg, p in list(flow.switch_edge_predicates(b, j, ov)) + list(flow.switch_edge_predicates(b, j, ofull)):
+                                    if re.match(r'^cmp\[1(\.0)?f64 <= arg:self→TokenBucket\.tokens\]$|^cmp\[arg:self→TokenBucket\.tokens >= 1(\.0)?f64\]$', p) and (j, tg) not in g:
                                         g.append((j, tg))
                         if g and i not in b.reach([0], avoid_edges=g):
                             kind = '−1 under tokens ≥ 1'
